@@ -59,14 +59,15 @@ theorem resyncLoopG_proj (fin : List KV × Nat) :
       · rfl
       · exact ih _ _ _ _ _ _
 
-/-- The cache holds exactly the conversion of `L`. -/
-def ViewIs (mode : Nat) (L : List KV) (wc : WC) : Prop :=
-  ∀ k, view wc k = (L.flatMap (convert mode)).foldl applyKV emptyView k
+/-- The cache holds exactly the conversion of `L` by a FRESH processor, and the processor's state is the one a
+fresh processor has after `L`. -/
+def ViewIs (p : Option Proc) (L : List KV) (wc : WC) : Prop :=
+  (∀ k, view wc k = (convSeq p [] L).foldl applyKV emptyView k) ∧ wc.pst = convState p [] L
 
-theorem ViewIs.of_eq {mode : Nat} {L : List KV} {wc w : WC} (h : ViewIs mode L wc)
-    (hr : w.res = wc.res) (ho : w.old = wc.old) : ViewIs mode L w := by
-  intro k
-  rw [← h k]
+theorem ViewIs.of_eq {p : Option Proc} {L : List KV} {wc w : WC} (h : ViewIs p L wc)
+    (hr : w.res = wc.res) (ho : w.old = wc.old) (hp : w.pst = wc.pst) : ViewIs p L w := by
+  refine ⟨fun k => ?_, by rw [hp]; exact h.2⟩
+  rw [← h.1 k]
   simp [view, oldLookup, hr, ho]
 
 /-! ### results that are not a new InSync -/
@@ -123,19 +124,18 @@ theorem nn_handleConverted (wc : WC) (kv : KV) : NoNewInSync wc (wc.handleConver
     · refine hm.trans (NoNewInSync.trans (NoNewInSync.send _ (by simp)) (NoNewInSync.of_out rfl))
 
 theorem nn_handleWatchListEvent (wc : WC) (kv : KV) : NoNewInSync wc (wc.handleWatchListEvent kv) := by
-  have h0 : NoNewInSync wc { wc with rev := kv.rev, errCount := 0 } := NoNewInSync.of_out rfl
   have fold : ∀ (c : List KV) (w : WC), NoNewInSync w (c.foldl WC.handleConverted w) := by
     intro c
     induction c with
     | nil => intro w; exact NoNewInSync.refl w
     | cons x xs ih => intro w; simp only [List.foldl_cons]; exact (nn_handleConverted w x).trans (ih _)
+  have h0 : NoNewInSync wc { wc with rev := kv.rev, errCount := 0, pst := (procRun wc.proc wc.pst kv).1 } :=
+    NoNewInSync.of_out rfl
   unfold WC.handleWatchListEvent
   simp only
   split
-  · exact h0.trans (nn_handleConverted _ _)
-  · split
-    · exact h0.trans ((fold _ _).trans (NoNewInSync.send _ (by simp)))
-    · exact h0.trans (fold _ _)
+  · exact h0.trans ((fold _ _).trans (NoNewInSync.send _ (by simp)))
+  · exact h0.trans (fold _ _)
 
 theorem nn_eventLoop (evs : List Ev) (wc : WC) : NoNewInSync wc (eventLoop wc evs) := by
   induction evs generalizing wc with
@@ -276,13 +276,13 @@ theorem resyncLoopG_insync (fin : List KV × Nat) :
 
 /-- **Which snapshot**: when the watch is created, the ghost holds the LAST successfully listed snapshot and the
 cache holds exactly its conversion — for every scripted sequence of failures. -/
-theorem resyncLoopG_last {m0 : View} {st0 : Nat} (fin : List KV × Nat) (mode : Nat) :
+theorem resyncLoopG_last {m0 : View} {st0 : Nat} (fin : List KV × Nat) (mode : Option Proc) :
     ∀ (fuel : Nat) (wc : WC) (full : Bool) (lists : List ListOut) (watches : List WatchOut)
       (g : Option (List KV)) (b : Bool),
-      Good m0 st0 wc → (wc.status = stWait → full = true ∨ wc.rev = 0) → wc.procMode = mode →
+      Good m0 st0 wc → (wc.status = stWait → full = true ∨ wc.rev = 0) → wc.proc = mode →
       ((∃ L, g = some L ∧ ViewIs mode L wc) ∨ full = true ∨ wc.rev = 0) →
       ∀ r, resyncLoopG fin fuel wc full lists watches g b = some r →
-        ∃ L, r.2.1 = some L ∧ ViewIs mode L r.1 ∧ r.1.procMode = mode := by
+        ∃ L, r.2.1 = some L ∧ ViewIs mode L r.1 ∧ r.1.proc = mode := by
   intro fuel
   induction fuel with
   | zero => intro wc full lists watches g b _ _ _ _ r hr; simp [resyncLoopG] at hr
@@ -291,16 +291,16 @@ theorem resyncLoopG_last {m0 : View} {st0 : Nat} (fin : List KV × Nat) (mode : 
     unfold resyncLoopG at hr
     simp only at hr
     have watchPart : ∀ (w1 : WC) (f : Bool) (ls : List ListOut) (g1 : Option (List KV)) (b1 : Bool) (L : List KV),
-        Good m0 st0 w1 → w1.status ≠ stWait → w1.procMode = mode → g1 = some L → ViewIs mode L w1 →
+        Good m0 st0 w1 → w1.status ≠ stWait → w1.proc = mode → g1 = some L → ViewIs mode L w1 →
         (if (watchStep w1 f (watches.headD WatchOut.ok)).2.2 = true then
             some ((watchStep w1 f (watches.headD WatchOut.ok)).1, g1, b1)
           else resyncLoopG fin n (watchStep w1 f (watches.headD WatchOut.ok)).1
             (watchStep w1 f (watches.headD WatchOut.ok)).2.1 ls watches.tail g1 b1) = some r →
-        ∃ L, r.2.1 = some L ∧ ViewIs mode L r.1 ∧ r.1.procMode = mode := by
+        ∃ L, r.2.1 = some L ∧ ViewIs mode L r.1 ∧ r.1.proc = mode := by
       intro w1 f ls g1 b1 L gd hs1 hm1 hg1 hv1 hw1
-      obtain ⟨pm, rs, ol⟩ := watchStep_same w1 f (watches.headD WatchOut.ok)
+      obtain ⟨pm, rs, ol, ps⟩ := watchStep_same w1 f (watches.headD WatchOut.ok)
       have hwk := watchStep_ok gd f (watches.headD WatchOut.ok)
-      have hv2 : ViewIs mode L (watchStep w1 f (watches.headD WatchOut.ok)).1 := hv1.of_eq rs ol
+      have hv2 : ViewIs mode L (watchStep w1 f (watches.headD WatchOut.ok)).1 := hv1.of_eq rs ol ps
       split at hw1
       · simp only [Option.some.injEq] at hw1
         subst hw1
@@ -310,13 +310,14 @@ theorem resyncLoopG_last {m0 : View} {st0 : Nat} (fin : List KV × Nat) (mode : 
     by_cases hf : (full || decide (wc.rev = 0)) = true
     · simp only [hf, if_true] at hr
       have hls := listStep_ok hg (lists.headD (ListOut.ok fin.1 fin.2))
-      have hmode : (listStep wc (lists.headD (ListOut.ok fin.1 fin.2))).1.procMode = mode := by
+      have hmode : (listStep wc (lists.headD (ListOut.ok fin.1 fin.2))).1.proc = mode := by
         rw [listStep_mode]; exact hm
       by_cases hgo : (listStep wc (lists.headD (ListOut.ok fin.1 fin.2))).2.2 = true
       · simp only [hgo, Bool.not_true, Bool.false_eq_true, if_false] at hr
-        obtain ⟨kvs, lrev, elo, hv⟩ := listStep_listed hg _ hgo
+        obtain ⟨kvs, lrev, elo, hv, hps⟩ := listStep_listed hg _ hgo
         have hgl : ghostList (lists.headD (ListOut.ok fin.1 fin.2)) g = some kvs := by rw [elo]; rfl
-        exact watchPart _ _ _ _ _ kvs hls.good (hls.go hgo) hmode hgl (fun k => by rw [hv k, hm]) hr
+        exact watchPart _ _ _ _ _ kvs hls.good (hls.go hgo) hmode hgl
+          ⟨fun k => by rw [hv k, hm], by rw [hps, hm]⟩ hr
       · have hgo' : (listStep wc (lists.headD (ListOut.ok fin.1 fin.2))).2.2 = false := by simpa using hgo
         simp only [hgo', Bool.not_false, if_true] at hr
         have hfull : (listStep wc (lists.headD (ListOut.ok fin.1 fin.2))).2.1 = true := by
